@@ -21,7 +21,7 @@ impl<'tcx> X<'tcx> {
             Res::Def(k, d) => J::Obj(vec![
                 ("res", J::s("def")),
                 ("dk", J::s(&format!("{:?}", k))),
-                ("def", J::s(&self.tcx.def_path_str(d))),
+                ("def", J::s(&crate::dpath(self.tcx, d))),
                 ("id", J::s(&crate::def_id_str(self.tcx, d))),
             ]),
             Res::Local(h) => J::Obj(vec![("res", J::s("local")), ("hid", J::s(&hid_str(h)))]),
@@ -146,7 +146,7 @@ impl<'tcx> X<'tcx> {
                 vec![
                     ("k", J::s("mcall")),
                     ("name", J::s(seg.ident.name.as_str())),
-                    ("m", J::s(&did.map(|d| self.tcx.def_path_str(d)).unwrap_or_default())),
+                    ("m", J::s(&did.map(|d| crate::dpath(self.tcx, d)).unwrap_or_default())),
                     ("mid", J::s(&did.map(|d| crate::def_id_str(self.tcx, d)).unwrap_or_default())),
                     ("margs", J::s(&format!("{:?}", substs))),
                     ("recv", self.expr(recv)),
